@@ -22,7 +22,7 @@ PROPS = {
     "C06": dict(props="Props/C06.v", runner="conc",
                 families=["cas", "helping"], scenarios=["s08", "s09", "s19"], deep=["s19"]),
     "C07": dict(props="Props/C07.v", runner="conc",
-                families=["mixed", "nofast", "guards"], scenarios=["s01", "s03", "s07"]),
+                families=["mixed", "nofast", "guards"], scenarios=["s01", "s03", "s07"], litmus=True),
     "C08": dict(props="Props/C08.v", runner="conc",
                 families=["guards", "nofast", "helping", "mixed"], scenarios=["s01", "s03", "s04", "s05"], freeze=True, chase=[("s21", 0, 1)]),
     "C09": dict(props="Props/C09.v", runner="conc",
